@@ -807,8 +807,14 @@ func (c *TCPConn) read(p []byte) (int, error) {
 		c.N.Obs.TCPReadCall(c)
 	}
 	c.N.K.Yield("sock:"+c.Role+":Read", c.Name)
-	if do, ok := c.N.ioFault(c.Role, "Read"); ok && do == "error" {
-		return 0, errInjected
+	withData := false
+	if do, ok := c.N.ioFault(c.Role, "Read"); ok {
+		if do == "error" {
+			return 0, errInjected
+		}
+		// "error-with-data": the Read hands out what is there and reports the (transient)
+		// error with it - n > 0 and err != nil at once, which io.Reader allows
+		withData = do == "error-with-data"
 	}
 	if len(p) == 0 {
 		return 0, nil
@@ -855,6 +861,9 @@ func (c *TCPConn) read(p []byte) (int, error) {
 			if last {
 				c.N.K.Stats.Fault("stream:eof-with-data")
 				return n, io.EOF
+			}
+			if withData {
+				return n, errInjected
 			}
 			return n, nil
 		}
